@@ -120,10 +120,15 @@ def seqapi_phase(run):
             return (KF_D8, KNOWN_TEXT[KF_D8])
         return None
     d = Differential(run, {"release": b}, lambda c: "seqapi_model_entry", None, oracle=oracle, known=known, isolated=False,
-                     check_entry=lambda c: "seqapi_check_entry", nontrivial=lambda c: sum(1 for o in c.ops if o[0] == 1) >= 2)
+                     check_entry=lambda c: "seqapi_check_entry", nontrivial=lambda c: sum(1 for o in c.ops if o[0] == 1) >= 2, max_reports=1)
     B = 400
-    for i in range(0, len(cases), B):
+    d.shrink_budget_s = 20
+    d.process(cases[:30])              # a first small batch: a mutant that blocks claims is found here without paying for hundreds of blocked calls
+    B = 200
+    for i in range(30, len(cases), B):
+        if d.real >= 1: break
         d.process(cases[i:i + B])
+        if d.real >= 1: break          # violations found and reported: no need to wade through the rest (a blocking mutant costs seconds per case)
     d.finish()
     return dist
 
